@@ -18,6 +18,9 @@
 (*     reports all clauses at all positions (decides VIOLATION).           *)
 (*   strict (cfg _strict..): every recorded step is the step NtsCookies    *)
 (*     takes from the recorded pre-state (<<"DRIFTAT", ...>>, DRIFT only). *)
+(* Probe events carry the listener that was asked (tr = "ip": server_ip.go,*)
+(* tr = "scion": server_scion.go, SCION/UDP over an empty path): both      *)
+(* listeners are judged by the same clauses and the same ReplyFor.         *)
 (* Behaviours are concatenated; "reset" starts a new one.                  *)
 (***************************************************************************)
 EXTENDS Integers, Sequences, FiniteSets, TLC, Json
@@ -144,8 +147,10 @@ TNext ==
      \/ /\ e.ev = "probe"
         /\ prov' = ProvOf(e.prov)
         /\ rep' = IF e.ans
-                  THEN [k |-> "probe", n |-> e.n, u |-> e.u, cookies |-> e.cookies, sess |-> 0, size |-> e.size, bad |-> e.bad]
-                  ELSE [k |-> "dropped", n |-> e.n, u |-> e.u, cookies |-> << >>, sess |-> 0, size |-> 0, bad |-> FALSE]
+                  THEN [k |-> "probe", n |-> e.n, u |-> e.u, cookies |-> e.cookies, sess |-> 0, size |-> e.size,
+                        bad |-> e.bad, tr |-> e.tr]
+                  ELSE [k |-> "dropped", n |-> e.n, u |-> e.u, cookies |-> << >>, sess |-> 0, size |-> 0,
+                        bad |-> FALSE, tr |-> e.tr]
         /\ seen' = seen \cup Ids(e.cookies)
         /\ obs' = "probe"
         /\ aux' = [NoAux EXCEPT !.opens = AllOpen(e.cookies), !.lens = AllLen(e.cookies), !.ans = e.ans]
